@@ -1,6 +1,7 @@
 package ref
 
 import (
+	"crypto/ecdsa"
 	"crypto/ed25519"
 	"crypto/elliptic"
 	"crypto/sha256"
@@ -224,3 +225,14 @@ func (k *Key) Header(kid string) map[string]interface{} {
 	}
 	return h
 }
+
+// ECDSAPrivate exposes the key as a Go ecdsa private key (nil for Ed25519).
+func (k *Key) ECDSAPrivate() *ecdsa.PrivateKey {
+	if k.curve == nil {
+		return nil
+	}
+	return &ecdsa.PrivateKey{PublicKey: ecdsa.PublicKey{Curve: k.curve, X: k.X, Y: k.Y}, D: k.d}
+}
+
+// EdPrivate exposes the Ed25519 private key (nil for EC keys).
+func (k *Key) EdPrivate() ed25519.PrivateKey { return k.edPrv }
